@@ -138,6 +138,7 @@ bool Solver::satisfy() {
         }
     }
     bs->cleanup();
+    delete vList;
     bool activeConstraints=false;
     for(unsigned i=0;i<m;i++) {
         if(cs[i]->active) activeConstraints=true;
@@ -150,7 +151,6 @@ bool Solver::satisfy() {
             throw UnsatisfiedConstraint(*cs[i]);
         }
     }
-    delete vList;
     copyResult();
     return activeConstraints;
 }
